@@ -1338,6 +1338,24 @@ class Machine:
             if (t in err) != (e in err):
                 self.assumed.add(i.loc)
                 return ('goto', e if t in err else t)
+        dec = getattr(self, 'decisions', None)
+        if dec is not None and i.op == 'br':
+            # path enumeration: the branch is decided by the scheduled decision sequence (the same condition gets the same
+            # decision within a run); the driver re-runs the call for every sequence and collects the path conditions
+            key = c if hasattr(c, 'e') else None
+            if key is not None:
+                memo = self.decision_memo
+                if key in memo:
+                    d = memo[key]
+                else:
+                    k = len(self.decision_log)
+                    if k >= len(dec):
+                        from .vals import NeedDecision
+                        raise NeedDecision()
+                    d = dec[k]
+                    memo[key] = d
+                    self.decision_log.append((c, d, i.loc))
+                return ('goto', i['then'] if d else i['else'])
         raise Unsupported('data-dependent control flow in %s at %s' % (fr.f.name, i.loc))
 
     # ------------------------------------------------------------------------------------------ calls (IR level)
